@@ -12,7 +12,7 @@ PROP = {
         ],
         "lanes": [
             native("c05"),
-            # ~0.3 s per evaluation under Miri (measured): 60 guard programs + a third of the macro sites per seed
+            # ~0.3 s per evaluation under Miri (measured): 60 guard programs + a quarter of the macro sites per seed (4 seeds cover all)
             miri("c05", seeds_q=0, seeds_t=4, scale=1, args={"programs": 60}),
             gen("C05"),
         ],
